@@ -58,6 +58,15 @@ func genWitnessConsts(repo string) (string, error) {
 		byte(transaction.WitnessBoolean), byte(transaction.WitnessNot), byte(transaction.WitnessAnd), byte(transaction.WitnessOr),
 		byte(transaction.WitnessScriptHash), byte(transaction.WitnessGroup), byte(transaction.WitnessCalledByEntry),
 		byte(transaction.WitnessCalledByContract), byte(transaction.WitnessCalledByGroup))
+	// the JSON names (String() of the condition types, in the order of the model's constructors, and of the actions)
+	names := []string{transaction.WitnessBoolean.String(), transaction.WitnessNot.String(), transaction.WitnessAnd.String(),
+		transaction.WitnessOr.String(), transaction.WitnessScriptHash.String(), transaction.WitnessGroup.String(),
+		transaction.WitnessCalledByEntry.String(), transaction.WitnessCalledByContract.String(), transaction.WitnessCalledByGroup.String()}
+	for i := range names {
+		names[i] = fmt.Sprintf("%q", names[i])
+	}
+	fmt.Fprintf(&b, "def condTypeNames : List String := [%s]\n", strings.Join(names, ", "))
+	fmt.Fprintf(&b, "def actionNames : List String := [%q, %q]\n", transaction.WitnessDeny.String(), transaction.WitnessAllow.String())
 	b.WriteString("end NeoModel.Generated.WitnessConsts\n")
 	return b.String(), nil
 }
